@@ -41,6 +41,11 @@ fn keys<const N: usize>(seed: u64, d: usize) {
             let what = if a.path.starts_with("sk.") && a.path != "sk.x1" { "secret scalar non-zero" } else { "element non-identity" };
             eng::prove_under(&format!("{} (path {:?}): {} {}", name, p.flips, a.path, what), "C19 degenerate-key-component", &hy, &nz(Scalar::from_term(a.term())));
         }
+        // the secret scalars are independent samples: none is a copy of another (a key with y_i = y_j signs sums, not tuples)
+        if p.flips.is_empty() {
+            let secrets: Vec<(String, Scalar)> = at.iter().filter(|a| a.path == "sk.x" || a.path.starts_with("sk.ys.")).map(|a| (a.path.clone(), Scalar::from_term(a.term()))).collect();
+            independent_generators(&name, "C19 key-scalars-not-independent", &hy, &secrets);
+        }
         // G1 and G2 halves share discrete logarithms: e(Y1_i, g~) = e(g, Y~_i), e(X1, g~) = e(g, X~)
         let (g1, g2) = (atom_scalar(&at, "pk.g1"), atom_scalar(&at, "pk.g2"));
         for i in 0..N {
